@@ -81,6 +81,10 @@ def mk_val(world, v, ctx):
     if t == "tuple":
         return tuple(V.dec_list(v["v"]))
     if t == "vec":
+        if v.get("declared"):
+            # a Vector whose dtype the caller declared (taken on trust by the constructor): its
+            # elements may go beyond it; assigning it is assigning those elements
+            return S.Vector(V.dec_list(v["v"]), dtype={"int": int, "float": float, "str": str, "bool": bool}[v["declared"]])
         return S.Vector(V.dec_list(v["v"]), name=V.dec(v.get("name")))
     if t == "h":
         return world.obj(v["h"])
@@ -161,6 +165,23 @@ def _input_list(world, rec, ctx):
     world.inputs[rec["inp"]] = V.dec_list(rec["vals"])
 
 
+@op("input_vlist", "life")
+def _input_vlist(world, rec, ctx):
+    """the program keeps a plain list of vectors (and no other reference to them)"""
+    S = serif()
+    world.inputs[rec["inp"]] = [S.Vector(V.dec_list(vals), name=V.dec(nm)) for nm, vals in rec["cols"]]
+
+
+@op("tab_of_input", "construct")
+def _tab_of_input(world, rec, ctx):
+    S = serif()
+    src = world.inputs.get(rec["inp"])
+    if not isinstance(src, list) or not src or not all(isinstance(x, S.Vector) for x in src):
+        raise SkipOp("no vector list")
+    res = S.Table(src) if rec.get("how", "Table") == "Table" else S.Vector(src)
+    return _bind_result(world, rec, res, "tab_of_input")
+
+
 @op("drop_input", "life")
 def _drop_input(world, rec, ctx):
     world.inputs.pop(rec["inp"], None)
@@ -199,7 +220,11 @@ def _csv(world, rec, ctx):
     """read_csv from an in-memory file object (C03 monitors the dtypes of the resulting columns)"""
     import io
     S = serif()
-    text = "\n".join(",".join(row) for row in rec["rows"]) + ("\n" if rec["rows"] else "")
+    rows = rec["rows"]
+    if rec.get("repeat"):       # compact form of a long file: header, then one line repeated, then the tail
+        k, line, n = rec["repeat"]
+        rows = rows[:k] + [line] * n + rows[k:]
+    text = "\n".join(",".join(row) for row in rows) + ("\n" if rows else "")
     res = S.read_csv(io.StringIO(text), has_header=bool(rec.get("header", True)))
     return _bind_result(world, rec, res, "csv")
 
@@ -290,6 +315,43 @@ def _getitem(world, rec, ctx):
     return None
 
 
+@op("rowseal", "derive")
+def _rowseal(world, rec, ctx):
+    """old = t[i], kept *without looking at it*: what it must show later is read from the table's
+    columns now, not from the row (a harness that reads every object it gets would hide a row that
+    takes its values lazily)"""
+    o = world.obj(rec["h"], "tab")
+    i = rec["i"]
+    cols = o.cols()
+    if not cols or not (-len(o) <= i < len(o)):
+        raise SkipOp("row out of range")
+    expected = [V.tv(c[i]) for c in cols]
+    res = o[i]
+    if type(res).__name__ != "Row":
+        raise SkipOp("not a row")
+    world.sealed[rec["name"]] = (res, expected)
+    ctx.result_scalar = ("sealed", len(expected))
+    return None
+
+
+@op("rowopen", "read")
+def _rowopen(world, rec, ctx):
+    ent = world.sealed.pop(rec["name"], None)
+    if ent is None:
+        raise SkipOp("no sealed row")
+    row, expected = ent
+    how = rec.get("how", "iter")
+    if how == "iter":
+        got = [V.tv(x) for x in row]
+    elif how == "index":
+        got = [V.tv(row[j]) for j in range(len(expected))]
+    else:
+        got = [V.tv(x) for x in row[:]]
+    ctx.extra["sealed"] = {"ok": got == expected, "expected": expected, "got": got, "how": how}
+    ctx.result_scalar = ("opened", got)
+    return None
+
+
 @op("t2d", "derive")
 def _t2d(world, rec, ctx):
     o = world.obj(rec["h"], "tab")
@@ -310,6 +372,19 @@ def _rshift(world, rec, ctx):
     res = (other >> o) if rec.get("refl") else (o >> other)
     hs = [rec["h"]] + ([rec["other"]["h"]] if rec["other"]["k"] == "h" else [])
     return _bind_result(world, rec, res, "rshift:" + rec["other"]["k"], _depth(world, *hs))
+
+
+@op("irshift", "derive")
+def _irshift(world, rec, ctx):
+    """t >>= x : the augmented form; the handle is rebound to whatever it yields"""
+    e = world.get(rec["h"])
+    o = e.obj
+    other = mk_val(world, rec["other"], ctx)
+    o >>= other
+    if o is e.obj:
+        ctx.writer = e.eid          # updated in place: a write through this handle
+        return None
+    return _bind_result(world, rec, o, "irshift", _depth(world, rec["h"]))
 
 
 @op("lshift", "derive")
@@ -350,8 +425,12 @@ def _unop(world, rec, ctx):
     return _bind_result(world, rec, res, "unop", _depth(world, rec["h"]))
 
 
+_LOOKUP = {1: "one", 2: "two", "a": "A", True: "yes", 0.5: "half"}
 _TYPES = {"int": int, "float": float, "str": str, "bool": bool, "complex": complex,
-          "date": _dt.date, "datetime": _dt.datetime, "object": object}
+          "date": _dt.date, "datetime": _dt.datetime, "object": object,
+          # cast() also takes a plain callable: a lookup that answers None for unknown codes, a halving function
+          "fn_lookup": lambda x: _LOOKUP.get(x) if isinstance(x, (int, float, str, bool)) else None,
+          "fn_half": lambda x: x / 2}
 
 
 @op("cast", "derive")
@@ -510,6 +589,12 @@ def _set(world, rec, ctx):
     ctx.writer = e.eid
     key = mk_key(world, rec["key"], ctx)
     val = mk_val(world, rec["val"], ctx)
+    if rec.get("reenter") is not None:
+        # a caller-supplied value that *looks at the vector* while the library is reading it
+        # (time of check vs time of use inside one call): at call-back k it reads fingerprint()
+        target = e.obj
+        ctx.ticker.reenter_at = rec["reenter"]
+        ctx.ticker.reenter_fn = lambda: target.fingerprint()
     e.obj[key] = val
     return None
 
